@@ -29,7 +29,7 @@ func init() {
 		Real:           []string{"client send loop, sync rounds, reply parser, history store, energy file reader", "server report handler, sync handler, rotation loop, restart"},
 		Stub:           []string{"kernel sockets (UDP queue / simulated TCP connections with a fault layer)", "the meter firmware (harness writes energy_data.csv)"},
 		Assumptions:    []string{"readings fit 32 signed bits (the property's own restriction)", "the coverage claim is about the server contacted by the final sync round"},
-		RequiredProbes: []string{"c08.recovered-by-retransmission", "c08.negative-reading", "c08.sentinel-reading", "c08.sync-failed-before", "c08.rotation", "c08.server-restart", "c08.dup-retransmission", "c08.long-outage", "c08.old-slot-probed", "c08.reading-at-origin"},
+		RequiredProbes: []string{"c08.recovered-by-retransmission", "c08.negative-reading", "c08.sentinel-reading", "c08.sync-failed-before", "c08.rotation", "c08.server-restart", "c08.dup-retransmission", "c08.long-outage", "c08.old-slot-probed", "c08.reading-at-origin", "c08.overlapping-rounds-two-servers"},
 		RequiredSites:  []string{"send.wake", "send.tick", "csync.start", "csync.wake", "csync.resend", "report.after-write"},
 	})
 }
@@ -219,29 +219,72 @@ func runC08(m *Sim) {
 	for _, n := range servers {
 		c01SyncRotations(w, n)
 	}
-	// One sync round against reachable servers.
-	var ok bool
-	var rerr error
+	// One sync round against reachable servers - or two that overlap: while the
+	// first one is between two retransmissions, a second complete round runs
+	// (it may pick another server). Each round that completed owes its own
+	// server the full coverage.
+	var ok, okB bool
+	var rerr, rerrB error
 	latest := slot
-	var dialled []string
+	dialBy := map[int64][]string{}
+	var gidA, gidB int64
 	w.DialPolicy = func(address string) DialAction {
-		dialled = append(dialled, address)
+		dialBy[goid()] = append(dialBy[goid()], address)
 		return DialAction{}
 	}
-	t := w.Do("sync-round", func() { ok, rerr = cl.C.VerifSyncRound(latest) })
+	startedB := false
+	if ns >= 2 && m.C.Chance("overlapping-final-rounds", 1, 3) {
+		after := 1 + m.C.Int("overlap-after-resends", 4)
+		resends := 0
+		w.OnPark = func(p *Parked) {
+			if startedB || p.Site != "csync.resend" {
+				return
+			}
+			if resends++; resends < after {
+				return
+			}
+			startedB = true
+			tb := w.Do("sync-round-b", func() { gidB = goid(); okB, rerrB = cl.C.VerifSyncRound(latest) })
+			if tb.Panic != nil {
+				m.Fail("C08.panic", "sync-round", "sync round panicked: %v\n%s", tb.Panic, firstRepoFrames(tb.Stack))
+			}
+			m.Probe("c08.overlapping-rounds")
+		}
+	}
+	t := w.Do("sync-round", func() { gidA = goid(); ok, rerr = cl.C.VerifSyncRound(latest) })
+	w.OnPark = nil
 	if t.Panic != nil {
 		m.Fail("C08.panic", "sync-round", "sync round panicked: %v\n%s", t.Panic, firstRepoFrames(t.Stack))
 	}
-	if rerr != nil || !ok {
-		m.Fail("C08.cover", "round", "with every server reachable and no faults a sync round still fails (ok=%v err=%v)", ok, rerr)
+	if rerr != nil || !ok || (startedB && (rerrB != nil || !okB)) {
+		m.Fail("C08.cover", "round", "with every server reachable and no faults a sync round still fails (ok=%v err=%v; overlapping round started=%v ok=%v err=%v)", ok, rerr, startedB, okB, rerrB)
 	}
 	w.PumpUDP()
 	var contacted *ServerNode
-	if len(dialled) > 0 {
-		contacted = w.nodeAt(dialled[len(dialled)-1])
+	if d := dialBy[gidA]; len(d) > 0 {
+		contacted = w.nodeAt(d[len(d)-1])
 	}
 	if contacted == nil {
-		m.Fail("C08.cover", "round", "a sync round succeeded without dialling one of the device's servers (%v)", dialled)
+		m.Fail("C08.cover", "round", "a sync round succeeded without dialling one of the device's servers (%v)", dialBy[gidA])
+	}
+	if d := dialBy[gidB]; startedB && len(d) > 0 {
+		// The overlapping round's own server: same obligation.
+		if cb := w.nodeAt(d[len(d)-1]); cb != nil && cb != contacted {
+			sb := cb.Snap()
+			hb := map[uint32]bool{}
+			for _, s := range sb.Reports[dev.ID] {
+				hb[sb.Offset+s.Index] = true
+			}
+			for t := start; t <= slot; t++ {
+				if t < sb.Offset || t >= sb.Offset+4032 || cl.HistoryValue(t) < 2 || int64(t) < int64(Slot())-432 || int64(t) > int64(Slot())+432 {
+					continue
+				}
+				if !hb[t] {
+					m.Fail("C08.cover", "slot", "two overlapping sync rounds completed; the one against %s left timeslot %d (reading %d) without a record on that server", cb.Name, t, cl.HistoryValue(t))
+				}
+			}
+			m.Probe("c08.overlapping-rounds-two-servers")
+		}
 	}
 	w.S.Unhold(cl.Name + ":send.wake")
 	w.S.Unhold(cl.Name + ":send.tick")
